@@ -341,10 +341,15 @@ func OpJCopy(o *Out, m map[string]any, f Form, via string) {
 			res, _ = c.(map[string]any)
 		} else {
 			dst := map[string]any{"stale": 1}
-			if err := samapIns.CopyTo(arg, &dst, &inspector.ByteBuffer{}); err != nil {
+			// a buffer that holds something already, has room to spare, and keeps accumulating after the copy:
+			// whatever the copy handed out must stay as it is
+			buf := inspector.NewByteBuffer(256)
+			buf.BufferizeString("hdr:")
+			if err := samapIns.CopyTo(arg, &dst, buf); err != nil {
 				out = jerr(err)
 				return
 			}
+			accumulateMore(buf, 8)
 			res = dst
 		}
 		shared := SharedCount(reflect.ValueOf(root()), reflect.ValueOf(res))
